@@ -75,7 +75,7 @@ theorem view_getInstance {R : String} {a b : NodeSt} (h : ViewEq R a b) :
     simp only [ha]
     split
     · trivial
-    · exact ⟨view_saveFSM h _, rfl⟩
+    · exact ⟨h, rfl⟩
 
 theorem view_verify {R : String} {a b : NodeSt} (h : ViewEq R a b) (inst : Instance) (m : NMsg) :
     verifyMessage a inst m = verifyMessage b inst m := by
@@ -90,7 +90,7 @@ theorem view_restart {R : String} {a b : NodeSt} (h : ViewEq R a b) (inst : Inst
   unfold restartSigning
   cases doOrReject inst .e_event_signing_restart (.default now) with
   | none => trivial
-  | some r => exact ⟨view_saveFSM h _, rfl⟩
+  | some r => exact ⟨h, rfl⟩
 
 theorem view_step1 {a b : NodeSt} (m : NMsg) (h : ViewEq m.round a b) (inst : Instance) (now : Time) :
     OptRel (InstRel m.round) (step1 a inst m now) (step1 b inst m now) := by
